@@ -5,6 +5,7 @@ import (
 	"fmt"
 	"strconv"
 	"strings"
+	"unicode/utf8"
 
 	"github.com/emersion/go-ical"
 	"github.com/emersion/go-webdav/caldav"
@@ -87,6 +88,11 @@ func c19Build(c c19Case) *ical.Calendar {
 		comp := ical.NewComponent(s[:i])
 		if uid := s[i+1:]; uid == "\x00EMPTY" {
 			comp.Props.Set(ical.NewProp(ical.PropUID))
+		} else if uid != "" && !utf8.ValidString(uid) {
+			// as the decoder leaves it: the raw bytes of the line (SetText would replace an ill-formed byte)
+			p := ical.NewProp(ical.PropUID)
+			p.Value = uid
+			comp.Props.Set(p)
 		} else if uid != "" {
 			comp.Props.SetText(ical.PropUID, uid)
 		}
@@ -286,6 +292,45 @@ func init() {
 			}
 			s.Nontrivial(fmt.Sprintf("H/%d", ai))
 		})
+		// scale and byte-level UIDs, outside the enumerated family: many VTIMEZONE components in front of the
+		// first typed one (counters and indexes narrower than int), and UIDs that are not valid UTF-8 or differ only
+		// in an ill-formed byte (they are different strings)
+		var extra []c19Case
+		for _, k := range []int{126, 127, 128, 129, 255, 256, 257, 300} {
+			for _, tail := range [][]string{{"VEVENT/u1", "VTODO/u1"}, {"VEVENT/u1", "VEVENT/u1"}, {"VEVENT/u1", "VEVENT/u2"}, {"VTODO/", "VTODO/u1"}} {
+				c := c19Case{}
+				for i := 0; i < k; i++ {
+					c.Comps = append(c.Comps, "VTIMEZONE/")
+				}
+				c.Comps = append(c.Comps, tail...)
+				extra = append(extra, c)
+			}
+		}
+		odd := []string{"\xe9", "\xfc", "\xff", "\xfe", "\ufffd", "e\u0301", "\u00e9", "\U0001F382", "\xf0\x9f\x8e", "K", "\u212a"}
+		for _, a := range odd {
+			extra = append(extra, c19Case{Comps: []string{"VEVENT/" + a}})
+			for _, b := range odd {
+				extra = append(extra, c19Case{Comps: []string{"VEVENT/" + a, "VEVENT/" + b}}, c19Case{Comps: []string{"VTIMEZONE/", "VTODO/" + a, "VTODO/", "VTODO/" + b}})
+			}
+		}
+		r.Extra["scale_and_byte_level_cases"] = len(extra)
+		{
+			sh := r.Shard()
+			for i, c := range extra {
+				held, sig, exp, obs := c19Eval(c)
+				sh.Transition()
+				sh.Clause("many leading VTIMEZONE components / UIDs compared byte for byte")
+				sh.Nontrivial(fmt.Sprintf("X/%d", i))
+				if !held {
+					cc := c
+					if len(cc.Comps) > 8 {
+						cc.Comps = append([]string{fmt.Sprintf("(%d x VTIMEZONE/)", len(c.Comps)-2)}, c.Comps[len(c.Comps)-2:]...)
+					}
+					sh.Violate(engine.Violation{Sig: strings.Replace(sig, "C19/", "C19/scale-or-bytes/", 1), Clause: "scale-or-bytes", Index: int64(1)<<41 + int64(i), Kind: "C19", Case: c, Expected: exp, Observed: obs + fmt.Sprintf(" (%d components: %v)", len(c.Comps), cc.Comps)})
+				}
+			}
+			r.Merge(sh)
+		}
 		r.Extra["max_components"] = maxLen
 	})
 	registerReplay("C19-history", func(raw json.RawMessage) (bool, string) {
